@@ -7,9 +7,11 @@ def classify(case):
     still running when their lane was aborted), every other clause of the monitor holds, and at least one such task differs.
     The driver evaluates the clauses itself (observed.restarts[].class); anything else - a finished task run again, a lost
     task, a difference at a task that was not in Abort - is not keyed and stays a VIOLATION"""
-    rs = (case.get("observed") or {}).get("restarts") or []
+    obs = case.get("observed") or {}
+    rs = obs.get("restarts") or []
     classes = [r.get("class") for r in rs]
-    if classes and all(c in ("same", "abort-only") for c in classes) and "abort-only" in classes:
+    releases_ok = all(r[1] for r in (obs.get("releases") or []))
+    if releases_ok and classes and all(c in ("same", "abort-only") for c in classes) and "abort-only" in classes:
         return "restart-with-task-in-abort"
     return None
 
@@ -42,16 +44,19 @@ SPEC = dict(
           "the model: final statuses, statuses at each crash point, final statuses of restart and baseline runs, handler "
           "start counts after the restart. Monitored: restart final = baseline final, same task ids, no do start for a "
           "task past Doing in the payload, no undo start for Undone/Hold/Error, at least one start for a task persisted "
-          "Doing/Undoing. Non-trivial = some restart caught a task in Doing or Undoing. "
+          "Doing/Undoing; what a handler recorded before releasing the lock is in the payload a crash would find right after the "
+          "release and at every later crash point (half of the handlers release through st.Unlocker(), the others through Unlock). "
+          "Non-trivial = some restart caught a task in Doing or Undoing. "
           "Driver ckptorder: 1-3 goroutines doing 4-12 lock/modify/unlock cycles each (every modification bumps a sequence "
           "marker stored in the state data) concurrently with a TaskRunner executing a chain of 1-3 tasks whose handlers also "
           "modify the state, against a Backend whose Checkpoint (a) tries the state mutex (must be held by the caller), "
           "(b) sleeps 0-3 ms pseudo-randomly per call, (c) records the markers in completion order and keeps the payload whose "
           "write completed last; monitored: lock held at every call, markers non-decreasing, last completed marker = newest, "
-          "task statuses in that payload = in memory at quiescence."),
+          "task statuses in that payload = in memory at quiescence; after every release that followed a modification - some "
+          "goroutines and handlers release through st.Unlocker() - a completed write contains the modification."),
     exhaustive=dict(quick=False, thorough=False),
     trusted_base=[
-        "translators/unlockorder.go (go/ast): the lock-relevant steps of State.Unlock in source order",
+        "translators/unlockorder.go (go/ast): the lock-relevant steps of State.Unlock and of the closure of State.Unlocker in source order; the callers of the bare s.unlock() and of s.mu.Unlock() in overlord/state",
         "the persistence assumption of the model (the store holds the payload of the last unlock: checkpoints atomic and in order) is tied by C04_checkpoint_written_under_lock over the regenerated step list and by the ckptorder driver (state lock held during every Backend.Checkpoint call, writes complete in unlock order under concurrent unlockers, a runner and slow writes); the Backend implementation below Checkpoint (the file write) is C06",
         "hand-written compact model coq/models/Restart.v of TaskRunner.Ensure/run/mustWait/tryUndo and Change.AbortLanes for a single lane (overlord/state/taskrunner.go, change.go), tied by the differential run (harness/overlay/overlord/state/zz_verif_c04_test.go)",
         "goroutine scheduling is modelled by the event list; the driver makes the real runner deterministic by gating every handler (it never lets two completions race inside the runner)",
